@@ -16,6 +16,7 @@
 from vlib import x_handlers as xh
 from vlib import x_hcheck
 from vlib import impl
+import os  # noqa: E402
 
 ALL = {(): "RWrw", (10,): "RWrw", (11,): "RWrw", (10, 20): "RWrw", (10, 21): "RWrw", (11, 20): "RWrw", (11, 22): "RWrw",
        (10, 22): "RWrw", (10, 20, 101): ""}
@@ -253,11 +254,35 @@ def two_store_differential(ctx, n):
             probes.insert(rng.randrange(len(probes) + 1), (ui, xh.gen_query(rng, rng.choice(qpaths))))
         ulogin = (xh.USERS[ui] + ":") if xh.USERS[ui] else None
         want_raw = done % 3 == 0            # every third pair also gets the raw observers (about 700 requests per store)
+        # "all store contents": in half of the pairs store B also holds a collection NESTED INSIDE a calendar or address book
+        # the user can see (no request creates that; a restored or synchronised folder can hold it), on a path the policy
+        # gives the user nothing on -- one more dark subtree
+        nested = []
+        if rng.random() < 0.5:
+            for c in [(10, 20), (10, 21), (11, 20), (11, 22), (10, 22)]:
+                if not any(c[:len(d)] == d for d in ds) and table.get(c + (22,), "") == "" and rng.random() < 0.6:
+                    nested.append(c + (22,))
+
+        def plant(srv):
+            import json as _json
+            for q in nested:
+                d = os.path.join(srv.folder, "collection-root", *[xh.name_str(x) for x in q])
+                pf = os.path.join(os.path.dirname(d), ".Radicale.props")
+                if not os.path.isfile(pf) or not _json.load(open(pf)).get("tag"):
+                    continue                                  # only inside calendars / address books that exist
+                os.makedirs(d, exist_ok=True)
+                with open(os.path.join(d, ".Radicale.props"), "w") as f:
+                    _json.dump({"tag": "VCALENDAR", "D:displayname": "v1"}, f)
+                with open(os.path.join(d, "n0.ics"), "w", newline="") as f:
+                    f.write(xh.body_text(("BCal", [(0, "CEvent", 1)])))
+            ctx.count("two-store-nested-collections-planted", len(nested))
+        ds = ds + nested
         ra = xh.Runner(et)
         ra.after = raw_observers(ulogin) if want_raw else None
         outs_a = ra.run(world, probes, want_store=True, setup=(SETUP_POLS, sa))
         rb = xh.Runner(et)
         rb.after = raw_observers(ulogin) if want_raw else None
+        rb.plant = plant if nested else None
         outs_b = rb.run(world, probes, want_store=True, setup=(SETUP_POLS, sb))
 
         def visible(dump):
